@@ -77,7 +77,7 @@ IFACE = [("clk", "in", "std_logic"), ("x", "in", "unsigned(3 downto 0)"), ("b", 
 
 def gen_tree(rs, depth=0):
     kind = rs.choice(KINDS)
-    node = {"kind": kind, "k": rs.range(1, 14), "derived": rs.choice([0, 0, 0, 0, 1, 2, 3, 3]), "mon": rs.below(4) == 0, "children": []}
+    node = {"kind": kind, "k": rs.range(1, 14), "derived": rs.choice([0, 0, 0, 0, 1, 2, 3, 3]), "mon": rs.below(4) == 0, "onexit": rs.below(5) == 0, "children": []}
     if depth < 2:
         nch = rs.weighted([(3, 0), (4, 1), (3, 2), (1, 3)]) if depth else rs.range(1, 3)
         for j in range(nch):
@@ -116,7 +116,7 @@ def cross_depth(tree, rs):
 
 
 def template_key(n):
-    return repr((n["kind"], n["k"], n["derived"], n.get("mon"), [template_key(c) for c in n["children"]], [c["wire"] for c in n["children"]]))
+    return repr((n["kind"], n["k"], n["derived"], n.get("mon"), n.get("onexit"), [template_key(c) for c in n["children"]], [c["wire"] for c in n["children"]]))
 
 
 def body(node, X, B, E, Y, YB, F, p, hier, classes, L, ind="        "):
@@ -208,6 +208,12 @@ def body(node, X, B, E, Y, YB, F, p, hier, classes, L, ind="        "):
     if hier and node.get("mon") and n == 0:
         # the node's OWN output port (driven by its outs context, not read by any context) is the actual of a sub-entity's input
         a(f"{ind}Inc(x={Y}, y=Signal[Unsigned[4]]())")
+    if node.get("onexit") and hier:
+        # (hierarchical rendering only: inline, the same context is simply declared in the top architecture)
+        # the context that drives the outputs is created by a handler registered with cohdl.on_block_exit: it belongs to
+        # the entity whose architecture registered it
+        a(f"{ind}def {p}on_exit():")
+        ind = ind + "    "
     a(f"{ind}@std.concurrent")
     a(f"{ind}def {p}outs():")
     def asg(t, e):
@@ -221,6 +227,8 @@ def body(node, X, B, E, Y, YB, F, p, hier, classes, L, ind="        "):
     else:
         a(f"{ind}    " + asg(YB, f"{p}w{n - 1}[2:1]"))
     a(f"{ind}    " + asg(F, " ^ ".join(fs)))
+    if node.get("onexit") and hier:
+        a(f"{ind[:-4]}cohdl.on_block_exit({p}on_exit)")
 
 
 def render_hier(tree):
